@@ -254,13 +254,26 @@ func pskConfigs(thorough bool) [][]string {
 		out = append(out, ks)
 	}
 	out = append(out, []string{"zZ9", "Key-Alpha1"}) // order must not matter
+	// blank entries in the configured list: every list of 1-2 entries over {"", " ", real key} that has a blank entry,
+	// and three-entry lists with the blank entry first / in the middle / last. A configured key is a key whatever its
+	// content: the statement compares the bearer token with the configured strings, it knows no "unusable" key.
+	for _, l := range entryLists([]string{"", " ", "zZ9"}, 2)[2:] {
+		for _, k := range l {
+			if k != "zZ9" {
+				out = append(out, l)
+				break
+			}
+		}
+	}
+	out = append(out, []string{"", "zZ9", "s3cretB"}, []string{"zZ9", "", "s3cretB"}, []string{"zZ9", "s3cretB", ""}, []string{"", "", ""}, []string{" ", "zZ9", ""})
 	if thorough {
 		out = append(out,
-			[]string{"abc", "abcd"},            // one key is a prefix of another
-			[]string{"abcd", "abc", "ab"},      // chain
-			[]string{"Ab", "aB"},               // differ by case only
-			[]string{"dup", "dup"},             // duplicates
-			[]string{"", "x"},                  // an empty key is a key
+			[]string{"abc", "abcd"},                                  // one key is a prefix of another
+			[]string{"abcd", "abc", "ab"},                            // chain
+			[]string{"Ab", "aB"},                                     // differ by case only
+			[]string{"dup", "dup"},                                   // duplicates
+			[]string{"", "x"},                                        // an empty key is a key
+			[]string{"\t", "x"}, []string{"  ", " "}, []string{"\n"}, // other white-space-only keys
 			[]string{"key with space", "ключ"}, // inner spaces, non-ASCII
 			[]string{"a"},                      // single byte
 			[]string{strings.Repeat("K", 64), strings.Repeat("K", 63) + "k"},
@@ -273,6 +286,25 @@ func pskConfigs(thorough bool) [][]string {
 func runPSK(r *core.Report, thorough bool) {
 	cfgs := pskConfigs(thorough)
 	r.Set("psk_configurations", len(cfgs))
+	{
+		onlyBlank, mixed := 0, 0
+		for _, keys := range cfgs {
+			nb := 0
+			for _, k := range keys {
+				if strings.TrimSpace(k) == "" {
+					nb++
+				}
+			}
+			switch {
+			case nb == len(keys):
+				onlyBlank++
+			case nb > 0:
+				mixed++
+			}
+		}
+		r.Set("psk_configurations_only_blank_keys", onlyBlank)
+		r.Set("psk_configurations_blank_among_real_keys", mixed)
+	}
 	r.Set("psk_header_forms", len(pskForms))
 	var cases []*pskCase
 	for _, keys := range cfgs {
@@ -344,6 +376,18 @@ func evalPSK(r *core.Report, c *pskCase) {
 	r.Count("psk_cases", 1)
 	if want {
 		r.Count("psk_expected_accept", 1)
+	}
+	blankCfg := false
+	for _, k := range keys {
+		if strings.TrimSpace(k) == "" {
+			blankCfg = true
+		}
+	}
+	if blankCfg {
+		r.Count("psk_cases_config_has_blank_key", 1)
+		if want && strings.TrimSpace(token) == "" {
+			r.Count("psk_expected_accept_of_blank_key", 1)
+		}
 	}
 	if c.TokenKind == "exact" || (wf && c.TokenKind == "near") {
 		r.Nontrivial(core.Hash(append(append([]string{"psk"}, c.KeysHex...), append([]string{"|", c.MDKey, fmt.Sprint(c.NoMD)}, c.ValuesHex...)...)...))
